@@ -182,3 +182,14 @@ for p in list(NOT_APPLICABLE):
         del NOT_APPLICABLE[p]
 for e in ENGINES:
     e['serves_properties'] = sorted(CHECKS)
+
+_c('C08', 'model_checking',
+   'history search over scripted server behaviours plus deviation-bounded schedule search, on the real Client (virtual threads) and AsyncClient (virtual loop)',
+   'Every connect answer from a 12-entry menu, every poll-answer sequence up to length 2 (thorough 3) over 9 answers (messages, PING, NOOP, CLOSE, unknown type, garbage, 4xx, connection error, silence), POST answers, WebSocket connect / first-frame behaviours and five probe behaviours, combined with application scripts (send, disconnect, both, twice) and handler-initiated disconnects as a parallel script, under all interleavings and up to 1 (thorough 2) deviations; each execution ends with wait(), no-op send()/disconnect() and a second connect() on the same object. The monitor checks ConnectionError-or-established, one connect event with the adopted sid/transport/timing, exactly one disconnect with the reason of a cause that occurred before it, nothing after it, clean state, finished tasks, de-registration and reusability.',
+   'requests / websocket-client / aiohttp are contract-level fakes; client-side timeouts fire in virtual time.',
+   'DESIGN.md 5 C08')
+for p in list(NOT_APPLICABLE):
+    if p in CHECKS:
+        del NOT_APPLICABLE[p]
+for e in ENGINES:
+    e['serves_properties'] = sorted(CHECKS)
